@@ -562,6 +562,8 @@ const ORDERS: &[&str] = &[
     "random_pairs",
     "random_with_lookups",
     "pairs_then_chain",
+    "small_components_at_both_ends",
+    "reset_to_large_sizes",
 ];
 
 /// depth/size invariant through the hook against the big model, O(n alpha)
@@ -801,6 +803,66 @@ fn run_adversarial(order: &str, n: usize, seed: u64, rep: &mut Report) {
                     un!(b, b - 8);
                     b += 8;
                 }
+            }
+            "small_components_at_both_ends" => {
+                // components of 1..=5 elements at the lowest and at the highest indices, joined low-with-high in every
+                // combination of sizes and both argument orders (a link decision that mixes the index into the size
+                // comparison goes wrong only for large indices and nearly equal sizes)
+                let mut lo = 0usize;
+                let mut hi = n;
+                for da in 1..=5usize {
+                    for db in 1..=5usize {
+                        for swap in [false, true] {
+                            if lo + da + db + 2 >= hi {
+                                break;
+                            }
+                            let a0 = lo;
+                            for j in 1..da {
+                                un!(a0, a0 + j);
+                            }
+                            lo += da;
+                            hi -= db;
+                            let b0 = hi;
+                            for j in 1..db {
+                                un!(b0 + j, b0);
+                            }
+                            let (x, y) = (a0 + (da - 1) / 2, b0 + db / 2);
+                            if swap {
+                                un!(y, x);
+                            } else {
+                                un!(x, y);
+                            }
+                        }
+                    }
+                }
+                // checkpoint now: few components, every one of them tiny (depth bound 0..3)
+                if !big_checkpoint(&dsu, &m, &mut cx, "after joining small components from both ends") {
+                    return;
+                }
+            }
+            "reset_to_large_sizes" => {
+                // reset() is a constructor too: after it every element is its own component, whatever the size
+                for &n2 in &[n, n / 3 + 1, (1 << 18) + 1, n - n / 5, 300_000.min(n), n] {
+                    if n2 == 0 {
+                        continue;
+                    }
+                    lib!(dsu.reset(n2));
+                    m = BigModel::new(n2);
+                    if !big_checkpoint(&dsu, &m, &mut cx, &format!("after reset({})", n2)) {
+                        return;
+                    }
+                    for v in [0usize, 1, n2 / 2, n2 - n2 / 4 - 1, n2 - 1] {
+                        let v = v.min(n2 - 1);
+                        let (r, sz) = (lib!(dsu.par(v)), lib!(dsu.size(v)));
+                        if r != v || sz != 1 {
+                            cx.violation("par_not_member", Json::obj().set("what", "after reset an element is not its own component").set("v", v).set("par", r).set("size", sz).set("n", n2));
+                            return;
+                        }
+                    }
+                    un!(0, n2 - 1);
+                    un!(n2 / 2, n2 - 1);
+                }
+                // the structure now has the size of the last reset: the final sweep below uses n
             }
             _ => panic!("unknown order {}", order),
         }
@@ -1071,7 +1133,13 @@ fn main() {
             }
             let nmax = a.u64("n", if thorough { 1_000_000 } else { 1 << 17 }) as usize;
             let sizes: Vec<usize> = vec![2, 3, 5, 8, 17, 64, 100, 1000, 4097, nmax / 8 + 1, nmax];
-            let tasks: Vec<(String, usize)> = ORDERS.iter().flat_map(|o| sizes.iter().map(move |&n| (o.to_string(), n))).collect();
+            let mut tasks: Vec<(String, usize)> = ORDERS.iter().flat_map(|o| sizes.iter().map(move |&n| (o.to_string(), n))).collect();
+            // these two are linear and cheap: also at sizes beyond 2^18, 2^19 and 2^20 in every tier
+            for o in ["small_components_at_both_ends", "reset_to_large_sizes"] {
+                for n in [(1usize << 18) + 5, 600_000, 1_000_000, (1 << 20) + 7, 1_500_000] {
+                    tasks.push((o.to_string(), n));
+                }
+            }
             let q = WorkQueue::new(tasks.len() as u64);
             let tasks = &tasks;
             let rep = common::run_sharded(a.threads(), |_s, rep| {
